@@ -433,7 +433,7 @@ func (g *raceGen) opChanges(op *raceOp) {
 		newNodes = append(newNodes, n)
 	}
 	op.nodes = append(oldNodes, newNodes...)
-	noOld := r.chance(1, 6)
+	noOld := r.chance(1, 2) // the "diff against nothing" form shares no directory between calls
 	var idm user.IdentityMapping
 	withMap := r.chance(1, 5)
 	if withMap {
@@ -449,6 +449,18 @@ func (g *raceGen) opChanges(op *raceOp) {
 		}
 		ch, err := archive.ChangesDirs(newDir, od)
 		o.errv("err", err)
+		if noOld {
+			// the same question asked again and again while other operations run: every answer is the first one
+			rep := "same"
+			for k := 1; k <= 12; k++ {
+				ch2, err2 := archive.ChangesDirs(newDir, "")
+				if (err == nil) != (err2 == nil) || len(ch2) != len(ch) {
+					rep = fmt.Sprintf("call %d differs from the first: %d changes, error %v", k+1, len(ch2), err2)
+					break
+				}
+			}
+			o.set("repeat", rep)
+		}
 		var lines []string
 		for _, c := range ch {
 			lines = append(lines, c.String())
@@ -919,6 +931,10 @@ func (g *raceGen) genOps(k int) ([]*raceOp, error) {
 	if k >= 8 {
 		for i, must := range []string{"witness", "replace", "replace", "decompress", "burst", "chroot-layer", "chroot-untar"} {
 			kinds[(i*5)%k] = must
+		}
+		if k >= 12 {
+			// two directory diffs side by side
+			kinds[1], kinds[k-2] = "changes", "changes"
 		}
 	}
 	var ops []*raceOp
